@@ -109,6 +109,8 @@ def gen_world(rng, tier, *, min_species=2, max_species=5, allow_small_refs=True,
         box = d + [0.0, 0.0, round(rng.uniform(-2, 2), 5), 0.0, round(rng.uniform(-2, 2), 5), round(rng.uniform(-2, 2), 5)]
     title = rng.choice(["Mapped world", "t= 100.000 step= 5000", "  two  spaces ", "System; with [brackets] and #hash",
                         "x" * 60]) + " %d" % rng.randrange(1000)
+    if rng.random() < 0.15:
+        title += rng.choice(["  ", " ", "\t", " " * 20])      # a title padded with trailing blanks
     # end coordinates: placed around the first instance of the species (roughly overlapped), 3 decimals
     for s, spc in enumerate(species):
         first = next(i for i in instances if i["species"] == s)
@@ -129,7 +131,7 @@ def end_gro_text(spec):
     return gen.gro_text("end resolution " + spec["name"], ls, [5.0, 5.0, 5.0])
 
 
-def write_world(d, world, prefix="", dotted=False):
+def write_world(d, world, prefix="", dotted=False, itp_style=0):
     """Writes all files; returns dict of paths.  dotted: base names with several dots (force-field versions, temperatures)."""
     paths = {"system": os.path.join(d, prefix + "system.gro"), "species": []}
     with open(paths["system"], "w") as f:
@@ -139,9 +141,9 @@ def write_world(d, world, prefix="", dotted=False):
              "gro_end": os.path.join(d, f"{prefix}{sp['name']}_AA{'.298.15K' if dotted else ''}.gro"),
              "top_end": os.path.join(d, f"{prefix}{sp['name']}_AA{'.opls' if dotted else ''}.itp")}
         with open(p["top_start"], "w") as f:
-            f.write(gen.itp_text(sp["start"]))
+            f.write(gen.itp_text(sp["start"], style=itp_style))
         with open(p["top_end"], "w") as f:
-            f.write(gen.itp_text(sp["end"]))
+            f.write(gen.itp_text(sp["end"], style=itp_style and itp_style + 1))
         with open(p["gro_end"], "w") as f:
             f.write(end_gro_text(sp["end"]))
         paths["species"].append(p)
